@@ -101,7 +101,8 @@ def cfg_id(c):
         return "k%d%d%d" % (c["disc"][o], c["conn"][o], c["rel"][o])
     return "%s.%s.%s|b%d|%s|%s%s%d|t%d" % (ov("rdwr"), ov("llcp"), ov("card"), c["beep"], c["role"], c["env"],
                                             (c.get("ttype", "") + ("!%(cls)s@%(at)d%(mode)s" % c["fault"] if c.get("fault") else ""))
-                                            if c["env"] in TAG_ENVS else "", c["k"], c["termAt"])
+                                            if c["env"] in TAG_ENVS else "", c["k"], c["termAt"]) + (
+        "|i%dx%g" % tuple(c["sp"]) if c.get("sp") else "")
 
 
 # ------------------------------------------------------------------------------------------------
@@ -192,6 +193,10 @@ class ConnectRun(object):
         self.dev.observer = self.on_driver
         if cfg.get("fault"):
             self.dev.fault_hook = self.fault
+        self.clock = clock
+        self.sleep0 = len(clock.sleep_log)
+        if cfg.get("sp"):
+            self.dev.sense_cost = 0.03125           # a discovery attempt takes (virtual) time: rounds can outlast `interval`
         self.clf = nfc.clf.ContactlessFrontend()
         self.clf.device = self.dev
         self.clf.sense = self.sense
@@ -201,6 +206,7 @@ class ConnectRun(object):
         t = self.clf.target
         self.ev.append(dict(a=a, o=o, r=r, polls=self.polls, ncb=self.ncb, led=bool(self.dev.led),
                             field=bool(self.dev.field),
+                            minpause=int(round(min(self.clock.sleep_log[self.sleep0:] + [0.0]) * 1e6)),
                             target="none" if t is None else ("remote" if isinstance(t, nfc.clf.RemoteTarget) else "local")))
 
     def cb(self, name, o, r):
@@ -346,7 +352,8 @@ class ConnectRun(object):
                 self.cb("Startup", "rdwr", c["su"]["rdwr"])
                 return {"keep": targets, "drop": [], "wrong": ["106A"]}[c["su"]["rdwr"]]
             kw["rdwr"] = {"targets": [TAG_BRTY.get(c.get("ttype"), "106A") if c["env"] in TAG_ENVS else "106A"],
-                          "iterations": 1, "interval": 0.0, "on-startup": su_rdwr,
+                          "iterations": c.get("sp", (1, 0.0))[0], "interval": c.get("sp", (1, 0.0))[1],
+                          "on-startup": su_rdwr,
                           "on-discover": recorder("Discover", "rdwr", c["disc"], self.set_activating),
                           "on-connect": recorder("Connect", "rdwr", c["conn"], phase_setter("presence")),
                           "on-release": release("rdwr"), "beep-on-connect": c["beep"]}
@@ -498,7 +505,7 @@ class SenseSession(object):
 
     def emit(self, a, **kw):
         rec = dict(a=a, kinds=[], iters=0, res="", idx=0, sent="", muted=False, target=self.target_state(),
-                   field=bool(self.dev.field), nsense=0)
+                   field=bool(self.dev.field), nsense=0, interval=0, cycle=0, pauses=[])
         rec.update(kw)
         self.ev.append(rec)
 
@@ -510,8 +517,11 @@ class SenseSession(object):
                 self.envbox.kinds = kinds
                 ts = [make_target(i, k, techs[i]) for i, k in enumerate(kinds)]
                 res, idx = "none", 0
+                interval, cost = st.get("interval", 0.0), st.get("cost", 0.0)
+                self.dev.sense_cost = cost                  # virtual time one discovery attempt takes
+                s0 = len(self.clock.sleep_log)
                 try:
-                    t = self.clf.sense(*ts, iterations=iters, interval=0.0)
+                    t = self.clf.sense(*ts, iterations=iters, interval=interval)
                     if t is not None:
                         res, idx = "found", t.__dict__.get("_sim_from", -1) + 1
                 except nfc.clf.UnsupportedTargetError:
@@ -526,8 +536,12 @@ class SenseSession(object):
                 attempts = [x for x in log if x[0].startswith("sense_")]
                 muted = bool(log) and log[-1][0] == "mute"
                 first_mute = bool(log) and log[0][0] == "mute"
+                per_round = len(attempts) // iters if res == "none" else len(attempts)
                 self.emit("Sense", kinds=list(kinds), iters=iters, res=res, idx=idx, muted=muted,
-                          nsense=len(attempts), sent="mute-first" if first_mute else "no-mute-first")
+                          nsense=len(attempts), sent="mute-first" if first_mute else "no-mute-first",
+                          interval=int(round(interval * 1e6)), cycle=int(round(per_round * cost * 1e6)),
+                          pauses=[int(round(x * 1e6)) for x in self.clock.sleep_log[s0:]])
+                self.dev.sense_cost = 0.0
             elif st["op"] == "listen":
                 k = st["kind"]
                 self.envbox.kinds = (k,)
@@ -550,10 +564,14 @@ class SenseSession(object):
                     res = "raise:" + type(e).__name__
                 self.emit("Listen", kinds=[k], res=res)
             elif st["op"] == "exchange":
-                r = self.clf.exchange(bytearray(b"\x30\x00"), 0.01)
+                try:
+                    r = self.clf.exchange(bytearray(b"\x30\x00"), 0.01)
+                    res = "none" if r is None else "data"
+                except Exception as e:              # noqa: whatever the code under test raises is an outcome
+                    res = "raise:" + type(e).__name__
                 log = [x[0] for x in self.dev.log[n0:]]
                 sent = "cmd" if "send_cmd_recv_rsp" in log else ("rsp" if "send_rsp_recv_cmd" in log else "nothing")
-                self.emit("Exchange", sent=sent, res="none" if r is None else "data")
+                self.emit("Exchange", sent=sent, res=res)
         return dict(id=self.ident, ev=self.ev)
 
 
@@ -605,6 +623,19 @@ def sense_sessions(tier, seed, clock):
                                               dict(op="sense", kinds=[k2], techs=techs_for([k2], rnd), iters=1),
                                               dict(op="exchange")]
                 out.append(SenseSession("l%d:%s:listen-%s,sense-%s" % (n, how, k, k2), steps, clock))
+    # pauses: iterations x interval (none, tiny, default, shorter / longer than a round) x how long a round takes
+    cost = 0.03125
+    for iters in (1, 2, 3, 5):
+        for interval in (0.0, 0.001, 0.1, 0.02, 0.5):
+            for kinds in ((), ("absent",), ("absent", "absent"), ("unsupported", "absent"), ("commerr", "absent", "absent"),
+                          ("found",), ("absent", "found")):
+                n += 1
+                how = ("remote", "local", "none")[n % 3]
+                steps = capture_steps(how) + [dict(op="sense", kinds=list(kinds), techs=["X" if k == "unsupported" else "A"
+                                                                                        for k in kinds],
+                                                   iters=iters, interval=interval, cost=cost), dict(op="exchange")]
+                out.append(SenseSession("p%d:%s:%s/%dx%g" % (n, how, ",".join(k[:3] for k in kinds), iters, interval),
+                                        steps, clock))
     return out, maxlen
 
 
@@ -659,7 +690,7 @@ def mc(ck, module, cfgfile, need, reach_cfg, timeout):
 
 W_CONNECT = ["W_RetTrue", "W_RetObj", "W_RetFalse", "W_RetNoneNoOpt", "W_TermInPresence", "W_ReleaseFalseLoops",
              "W_TagVanished", "W_PeerReleased", "W_ReaderLeft"]
-W_SENSE = ["W_Second", "W_RaiseUnsupported", "W_IgnoredUnsupported", "W_StaleDropped", "W_ValueError",
+W_SENSE = ["W_Paused", "W_NoPauseLongCycle", "W_Second", "W_RaiseUnsupported", "W_IgnoredUnsupported", "W_StaleDropped", "W_ValueError",
            "W_NoneMuted", "W_ExchangeNothing", "W_ListenRaisedAfterCapture", "W_SenseRaisedAfterCapture"]
 
 
@@ -679,6 +710,11 @@ def run(tier, seed):
     ck.cover(connect_configurations=len(full), mc_depth_connect=r1.depth)
     r2 = mc(ck, "ClfSense.tla", "MC_ClfSense.cfg" if quick else "MC_ClfSense_thorough.cfg", W_SENSE,
             "MC_ClfSense_reach.cfg", 300 if quick else 900)
+    r3 = tlc.run("ClfSense.tla", "MC_ClfSense_pause.cfg", PID + "/ClfSense_pause", workers=8, timeout=300)
+    if not r3.ok:
+        ck.violation("spec:ClfSense(pauses):" + ",".join(r3.violated or ["deadlock"]),
+                     "TLC found a violation in the pause model: %s" % str(r3.error_trace)[:3000])
+    ck.cover(states=r3.distinct, transitions=r3.generated)
 
     # 2. the grid on the real frontend
     rnd = random.Random(seed)
@@ -686,7 +722,7 @@ def run(tier, seed):
         single = [c for c in full if sum(1 for o in OPTS if c["has"][o]) <= 1]
         multi = [c for c in full if sum(1 for o in OPTS if c["has"][o]) > 1]
         rnd.shuffle(multi)
-        todo = single + multi[:3000]
+        todo = single + multi[:2200]
     else:
         todo = full
         # real constants beyond the scaled model: longer budgets and later terminate indexes
@@ -714,6 +750,11 @@ def run(tier, seed):
             typed.append(dict(c, ttype="T2", fault=combos[0]))
         else:
             typed.append(c)
+    # iterations x interval of the rdwr sense loop (rounds take 31 ms of virtual time per target)
+    sps = [(i, v) for i in (1, 2, 3, 5) for v in (0.0, 0.001, 0.1)]
+    for n, c in enumerate(typed):
+        if c["has"]["rdwr"] and c["su"]["rdwr"] == "keep" and n % 2:
+            c["sp"] = sps[(n // 2) % len(sps)]
     absent = variants(True)[0]
     bases = [v for v in variants(True) if v["has"] and v["su"] == "keep" and v["disc"]]
     for r in (bases if not quick else [b for b in bases if b["rel"]]):
@@ -732,8 +773,13 @@ def run(tier, seed):
             traces.append(run_connect(c, ts.clock))
         sessions, maxlen = sense_sessions(tier, seed, ts.clock)
         straces = [s.run() for s in sessions]
-    good = next(t for t in traces if any(e["a"] == "Release" for e in t["ev"]) and t["ev"][-1]["r"] == "True")
+    # the self-test must not depend on what the code under test did: fall back to any trace
+    good = next((t for t in traces if any(e["a"] == "Release" for e in t["ev"]) and t["ev"][-1]["r"] == "True"), traces[0])
     self_t = selftests_connect(good)
+    if self_t[0]["ev"] == good["ev"]:
+        self_t[0]["ev"][-1]["a"] = "Bogus"
+    if self_t[1]["ev"] == good["ev"]:
+        del self_t[1]["ev"][0]
     verdicts, st = tlc.validate_traces("Trace_ClfConnect.tla", "Trace_ClfConnect.cfg", PID + "/trc", traces + self_t,
                                        shards=16, timeout=900 if quick else 3000)
     for t in self_t:
@@ -771,14 +817,20 @@ def run(tier, seed):
              activation_faults_by_type_and_error=by)
 
     # sense sessions
-    bad = json.loads(json.dumps(next(t for t in straces if any(e["a"] == "Sense" and e["res"] == "found" and e["idx"] > 1
-                                                               for e in t["ev"]))))
+    src1 = next((t for t in straces if any(e["a"] == "Sense" and e["res"] == "found" and e["idx"] > 1 for e in t["ev"])),
+                straces[0])
+    bad = json.loads(json.dumps(src1))
     for e in bad["ev"]:
         if e["a"] == "Sense" and e["res"] == "found" and e["idx"] > 1:
             e["idx"] -= 1
+    if bad["ev"] == src1["ev"]:
+        bad["ev"][-1]["a"] = "Bogus"
     bad["id"] = "selftest-corrupt"
-    bad2 = json.loads(json.dumps(next(t for t in straces if t["ev"][0]["a"] == "Sense" and t["ev"][0]["res"] == "found")))
+    bad2 = json.loads(json.dumps(next((t for t in straces if t["ev"][0]["a"] == "Sense" and t["ev"][0]["res"] == "found"),
+                                      straces[0])))
     del bad2["ev"][0]
+    if bad2["ev"] and bad2["ev"][0]["a"] != "Exchange":
+        bad2["ev"][0]["a"] = "Bogus"
     bad2["id"] = "selftest-dropped"
     sverd, sst = tlc.validate_traces("Trace_ClfSense.tla", "Trace_ClfSense.cfg", PID + "/trs", straces + [bad, bad2],
                                      shards=8, timeout=600)
